@@ -197,6 +197,19 @@ func main() {
 			{"abstraction", "  abi <abi/4.0>,\n\n", "  ", "\n  include if exists <abstractions/gen.d>\n"},
 			{"tunable", "# tunables\n\n", "", "\n@{last}=/x\n"},
 		}
+		// "crowded": the generated lines sit between paragraphs that already hold every inline symbol (so a generated
+		// inline line has an identical twin elsewhere in the file) and, for every inline symbol, a line that merely
+		// STARTS with it (one more filter): whatever is done to one directive line must not touch its twins' neighbours
+		// or the longer lines
+		crowdHead, crowdTail := "profile gen {\n  include <abstractions/base>\n\n", ""
+		for _, sy := range syms {
+			if sy != "" && sy[0] == 'I' {
+				crowdHead += "  " + sy[1:] + "\n"
+				crowdHead += "  " + sy[1:] + " zzz\n"
+				crowdTail += "  " + sy[1:] + " zzz\n"
+			}
+		}
+		wrappers = append(wrappers, struct{ name, head, indent, tail string }{"crowded", crowdHead + "\n", "  ", "\n" + crowdTail + "\n  include if exists <local/gen>\n}\n"})
 		for L := 1; L <= *maxLen; L++ {
 			enum.Tuples(len(syms), L, *shard, *of, func(seq []int) {
 				nd := 0
